@@ -353,6 +353,9 @@ def handle (line : String) : String :=
     let bans : List Kind := if banned == "-" then [] else (banned.splitOn ",").filterMap fun s => s.toNat?.bind fun i => Kind.all[i]?
     match parseForest 0 toks with
     | some (forest, [], _) =>
+      match checkRules forest [] with
+      | .error e => "err " ++ toString e.id ++ " " ++ showMsg e.msg
+      | .ok _ =>
       match compile bans forest with
       | .ok c => "ok " ++ showCat c
       | .error e => "err " ++ toString e.id ++ " " ++ showMsg e.msg
